@@ -31,8 +31,10 @@ SHELLSETS = {
         # 1/alpha_a + 1/alpha_b is dominated by the more diffuse shell: to feel the smallest exponent of a shell whose
         # smallest exponent is not listed last, its partner must be tight (or unsorted too)
         [(0, 6, 1), (0, 1, 1)], [(1, 6, 2), (2, 6, 1)], [(0, 7, 1), (1, 1, 1)]],
-    3: [[(0, 0, 1), (1, 2, 2), (2, 1, 1)], [(0, 3, 1), (0, 4, 2), (3, 6, 1)], [(0, 6, 1), (0, 1, 1), (1, 7, 2)]],
-    4: [[(0, 0, 1), (1, 2, 1), (0, 5, 2), (2, 6, 1)]],
+    3: [[(0, 0, 1), (1, 2, 2), (2, 1, 1)], [(0, 3, 1), (0, 4, 2), (3, 6, 1)], [(0, 6, 1), (0, 1, 1), (1, 7, 2)],
+        # all shells with the same smallest exponent (a valence-only basis): every pair has the same cutoff
+        [(0, 2, 1), (1, 7, 1), (0, 2, 2)]],
+    4: [[(0, 0, 1), (1, 2, 1), (0, 5, 2), (2, 6, 1)], [(1, 4, 1), (0, 3, 2), (0, 0, 1), (2, 5, 1)]],
     5: [[(0, 4, 1), (1, 0, 1), (0, 1, 2), (2, 2, 1), (0, 3, 1)]],
 }
 
@@ -57,7 +59,7 @@ def cutoff(sa, sb, tol):
 
 def bounds(tier):
     return {"shell_counts": "2..5", "shell_sets": {k: len(v) for k, v in shellsets(tier).items()},
-            "geometries_per_set": 2 + 2 * len(TOLS), "tolerances": TOLS + [None], "transform": [False, True], "transform_entry_scale": [1, 40, 1e-3],
+            "geometries_per_set": 2 + 2 * len(TOLS), "layouts": "chain (first shell at one end); star (first shell in the middle) for 3+ shells", "tolerances": TOLS + [None], "transform": [False, True], "transform_entry_scale": [1, 40, 1e-3],
             "type_patterns": "all 2^n for n<=3, 4 patterns above" if tier != "quick" else "2 per set"}
 
 
@@ -74,6 +76,10 @@ def configs(tier, seed):
             for tp in tps:
                 for (f, t) in geoms:
                     out.append({"n": n, "set": si, "types": list(tp), "geom": [f, t]})
+                    if n >= 3 and t is not None:
+                        # star layout: the FIRST shell in the middle, the others around it at f x their cutoff with
+                        # it, in alternating directions (so the outer shells are beyond their mutual cutoffs)
+                        out.append({"n": n, "set": si, "types": list(tp), "geom": [f, t], "layout": "star"})
     return out
 
 
@@ -108,6 +114,8 @@ def build(cfg):
             w = 0.3 if i % 2 else -0.3
             v = d * math.sqrt(1 - w * w) + perp * w
             pos = np.array(prev.center) + step * v
+            if cfg.get("layout") == "star":
+                pos = np.array(shells[0].center) + (f * cutoff(shells[0], sh, t)) * v * (1 if i % 2 else -1)
             sh = sh.with_(center=tuple(pos))
         shells.append(sh)
     return shells
